@@ -77,20 +77,24 @@ const (
 
 // next gets the next rune from the input.
 func (l *lexer) next() (r rune) {
-	if l.pos >= len(l.input) {
+	// refill when the window is used up, or ends in the middle of a rune
+	for l.pos >= len(l.input) || !utf8.FullRuneInString(l.input[l.pos:]) {
 		s, ok := <-l.inputs
 		if !ok {
-			if l.pos == l.start {
+			if l.pos == l.start && l.pos >= len(l.input) {
 				l.width = 0
 				return eof
 			}
 			// continue with leftover + s
 		}
-		l.input = l.input[l.start:l.pos] + s
+		l.lpUpd(s, l.posShift+len(l.input))
+		l.input = l.input[l.start:] + s
 		l.posShift += l.start
-		l.lpUpd(s, l.posShift+l.pos-l.start)
 		l.pos -= l.start
 		l.start = 0
+		if !ok {
+			break
+		}
 	}
 	r, l.width = utf8.DecodeRuneInString(l.input[l.pos:])
 	if l.width == 0 {
